@@ -27,10 +27,10 @@ type Assumption func(cond ssa.Value) (known, val bool)
 // PathQuery describes a search for a CFG path inside one function.
 type PathQuery struct {
 	Fn     *ssa.Function
-	From   ssa.Instruction               // start after this instruction; nil = function entry
-	Target func(ssa.Instruction) bool    // path ends successfully when reaching such an instruction
-	Block  func(ssa.Instruction) bool    // paths may not pass such an instruction (checked before Target)
-	Assume Assumption                    // optional: prune infeasible branches under a hypothesis
+	From   ssa.Instruction                           // start after this instruction; nil = function entry
+	Target func(ssa.Instruction) bool                // path ends successfully when reaching such an instruction
+	Block  func(ssa.Instruction) bool                // paths may not pass such an instruction (checked before Target)
+	Assume Assumption                                // optional: prune infeasible branches under a hypothesis
 	Edge   func(from *ssa.BasicBlock, succ int) bool // optional: edge filter (false = do not follow)
 }
 
@@ -261,9 +261,9 @@ func edgeFeasible(pred, succ *ssa.BasicBlock, a Assumption, depth int) bool {
 type retClass int
 
 const (
-	retUnknown retClass = iota
-	retNilErr           // the error result is provably nil
-	retNonNilErr        // the error result is provably non-nil
+	retUnknown   retClass = iota
+	retNilErr             // the error result is provably nil
+	retNonNilErr          // the error result is provably non-nil
 )
 
 func isErrorType(t types.Type) bool {
